@@ -41,6 +41,11 @@ from liquid.loader import BaseLoader, TemplateSource  # noqa: E402
 TOKEN_RE = re.compile(r"\[([a-z]+)\|([^|\]]*)\|([^|\]]*)\|(\d+)\]")
 NS_KEY = "uid"
 NAMESPACES = ["u1", "u2", 0]      # 0: a falsy but perfectly good namespace (user id 0)
+CHOICE_ORDER = ["fs", "sim", "dict"]   # delegate order of the choice loaders built here
+
+
+def _realm_list(r):
+    return [r] if isinstance(r, str) else list(r)
 
 
 def nss(ns):
@@ -307,17 +312,22 @@ class C23:
         realms = {}
         for n in names:
             realms[n] = {"cdict": "dict", "cfs": "fs", "cmixin": "sim"}.get(kind) or rng.choice(["fs", "sim", "dict"])
-        has_sim = "sim" in realms.values()
+            if kind == "cchoice" and rng.chance(0.5):
+                # the name exists (or may come to exist) in several delegates: the configured
+                # order decides, whatever was served or cached before
+                realms[n] = [r for r in CHOICE_ORDER if r == realms[n] or rng.chance(0.6)]
         use_ns = bool(ns_key)
         max_req = 12 if tier == "quick" else rng.choice([12, 12, 24, 40])
         nclients = rng.randint(1, 5)
         idents = []
         for n in names:
-            if realms[n] == "sim" and use_ns:
-                idents += [["sim", ns, n] for ns in ["", "u1", "u2", "0"]]
-            else:
-                idents.append([realms[n], "", n])
-        initial = [i for i in idents if rng.chance(0.8)]
+            for r in _realm_list(realms[n]):
+                if r == "sim" and use_ns:
+                    idents += [["sim", ns, n] for ns in ["", "u1", "u2", "0"]]
+                else:
+                    idents.append([r, "", n])
+        multi = any(len(_realm_list(realms[n])) > 1 for n in names)
+        initial = [i for i in idents if rng.chance(0.55 if multi else 0.8)]
         uid = [0]
 
         def gen_req():
@@ -434,13 +444,12 @@ class C23:
             bump(w.stats, "edit.delete")
 
     # -- model: what may a request resolve to ------------------------------------------
-    def _ident_for(self, sc, name, ns):
-        realm = sc["realms"].get(name)
-        if realm is None:
-            return None
-        if realm == "sim":
-            return ("sim", nss(ns), name)
-        return (realm, "", name)
+    def _candidates(self, sc, name, ns):
+        """Sources a request for (name, ns) may resolve to, in delegate priority order."""
+        out = []
+        for realm in _realm_list(sc["realms"].get(name) or []):
+            out.append(("sim", nss(ns), name) if realm == "sim" else (realm, "", name))
+        return out
 
     # -- execution ---------------------------------------------------------------
     def run(self, sc):
@@ -539,9 +548,9 @@ class C23:
                 return "%s/%s" % (nss(op["ns"]), op["name"])
             return op["name"]
 
-        def judge(op, inv, ret, got, loads_before, cancelled):
+        def judge(op, inv, ret, got, loads_before, cancelled, missed=False):
             ck = cache_key_of(op)
-            ident = self._ident_for(sc, op["name"], op["ns"])
+            cands = self._candidates(sc, op["name"], op["ns"])
             mode, via = op["mode"], op["via"]
             tagreq = via.startswith("tag:")
             faulted = any(inv <= s <= ret for s in w.fault_seqs)
@@ -553,9 +562,9 @@ class C23:
                 if faulted and got[1] in ("OSError", "PermissionError", "FileNotFoundError"):
                     bump(st, "fault.request_failed_with_injected_error")
                     return
-                if (got[1] in ("FileNotFoundError", "OSError") and ident is not None and ident[0] == "fs"
-                        and mode == "async" and w.store.dead_sometime(ident, inv, ret)
-                        and w.store.alive_during(ident, inv, ret)):
+                if (got[1] in ("FileNotFoundError", "OSError") and mode == "async"
+                        and any(c[0] == "fs" and w.store.dead_sometime(c, inv, ret)
+                                and w.store.alive_during(c, inv, ret) for c in cands)):
                     # a delete landed between the two executor jobs (resolve, read) of this
                     # request: the non-caching loader has the same check-then-open race and
                     # the property does not quantify over it; counted, not reported
@@ -564,17 +573,17 @@ class C23:
                 add("errors", "errors:%s:%s:%s:%s" % (got[1], mode, "tag" if tagreq else "direct", sc["loader"]),
                     {"op": op, "raised": got[1:], "model": _brief(want)})
                 return
-            # --- which version did we get -------------------------------------
-            strict = sc["auto_reload"] and ident is not None and (
-                ident[0] == "fs" or (ident[0] == "sim" and sc["uptodate"] != "none"))
-            lo = inv if strict else first_req[ck]
+            # --- the window in which what we got must have been current -------------------
+            # `missed`: the key was not cached when the request was invoked and nobody else could
+            # have put it there, so whatever is returned was loaded during this request
+            lo_hist = inv if missed else first_req[ck]
             if got[0] == "err":  # TemplateNotFoundError
                 if want[0] == "err" and want[1] == "TemplateNotFoundError":
                     return
                 if faulted:
                     bump(st, "fault.request_failed_with_injected_error")
                     return
-                if ident is None or w.store.dead_sometime(ident, lo, ret):
+                if all(w.store.dead_sometime(c, _lo(c, inv, lo_hist), ret) for c in cands):
                     bump(st, "relaxed.notfound_overlapping_delete")
                     return
                 add("errors", "errors:spurious-notfound:%s:%s" % (mode, "tag" if tagreq else "direct"),
@@ -590,15 +599,18 @@ class C23:
                 return
             oid = (m.group(1), m.group(2), m.group(3))
             ok_ver = int(m.group(4))
-            if ident is None or oid != ident:
-                kindv = "wrong-namespace" if ident and oid[2] == ident[2] and oid[0] == ident[0] else (
+            if oid not in cands:
+                kindv = "wrong-namespace" if any(oid[2] == c[2] and oid[0] == c[0] for c in cands) else (
                     "decoy" if oid[0] == "decoy" else "wrong-name")
                 add("integrity", "integrity:%s:%s:%s" % (kindv, mode, "tag" if tagreq else via),
-                    {"op": op, "resolved_to": oid, "expected": ident, "model": _brief(want)})
+                    {"op": op, "resolved_to": oid, "expected": cands, "model": _brief(want)})
                 return
+            ident = oid
             # --- exact agreement with the non-caching loader at the return instant
             if got == want:
                 return
+            strict = _strict(ident)
+            lo = _lo(ident, inv, lo_hist)
             alive = w.store.alive_during(ident, lo, ret)
             ticks = {v["tick"] for v in alive}
             acc = {v["k"] for v in alive}
@@ -610,11 +622,31 @@ class C23:
                 wm = TOKEN_RE.search(wtext)
                 same_but_version = wm is not None and _strip_ver(got, tagreq) == _strip_ver(want, tagreq)
             else:
+                wm = None
                 same_but_version = None
             if not vers_ok:
                 add("freshness", "freshness:stale:%s:%s:%s" % (ident[0], mode, "strict" if strict else "relaxed"),
                     {"op": op, "got_version": ok_ver, "acceptable": sorted(acc), "window": [lo, ret],
                      "versions": [{k: v[k] for k in ("k", "tick", "born", "died")} for v in w.store.versions(ident)]})
+                return
+            # --- delegate priority: every delegate in front of the one that answered must have
+            # been without the name at some instant since this cache entry can have been loaded
+            # (a cached, up-to-date entry cannot notice a source created later in a delegate that
+            # comes first: counted, not reported; a miss or reload must honour the order)
+            for c in cands[:cands.index(ident)]:
+                if not w.store.dead_sometime(c, lo_hist if not missed else inv, ret):
+                    if sc["config"] == "fault":
+                        # an injected error in a delegate legitimately falls through to the next
+                        # one, and the entry cached from it keeps being served: priority is only
+                        # judged in the fault-free configuration
+                        bump(st, "relaxed.fault_fell_through_to_lower_delegate")
+                        return
+                    add("priority", "priority:lower-delegate:%s:%s" % (mode, "miss" if missed else "cached"),
+                        {"op": op, "answered_from": ident, "shadowed_by": c, "window": [lo_hist, ret],
+                         "model": _brief(want)})
+                    return
+            if wm is not None and (wm.group(1), wm.group(2), wm.group(3)) != ident:
+                bump(st, "relaxed.cached_entry_shadowed_by_later_source")
                 return
             if same_but_version is False:
                 # right source, acceptable version, but name/path/matter/globals/behaviour differ
@@ -631,6 +663,13 @@ class C23:
                 bump(st, "relaxed.served_while_deleted")
             if ok_ver != (w.store.current(ident) or {"k": -1})["k"]:
                 bump(st, "relaxed.older_acceptable_version")
+
+        def _strict(ident):
+            return bool(sc["auto_reload"] and (ident[0] == "fs" or (ident[0] == "sim" and sc["uptodate"] != "none")))
+
+        def _lo(ident, inv, lo_hist):
+            """Start of the window in which a returned version of `ident` must have been current."""
+            return inv if _strict(ident) else lo_hist
 
         def check_cache(where):
             try:
@@ -655,10 +694,10 @@ class C23:
                     for u in map(nss, NAMESPACES):
                         if k.startswith(u + "/"):
                             ns, name = u, k[len(u) + 1:]
-                ident = self._ident_for(sc, name, ns or None)
+                cands = self._candidates(sc, name, ns or None)
                 oid = (m.group(1), m.group(2), m.group(3))
-                if ident is None or oid != ident:
-                    add("cache", "cache:foreign-entry", {"key": k, "holds": oid, "expected": ident, "where": where})
+                if oid not in cands:
+                    add("cache", "cache:foreign-entry", {"key": k, "holds": oid, "expected": cands, "where": where})
                 cur = w.store.current(oid)
                 sig.append((k, cur is None or cur["k"] != int(m.group(4))))
             res["states"].append(int(digest((sc["loader"], cap, sig))[:12], 16))
@@ -700,6 +739,10 @@ class C23:
             nfired0 = len(w.plan.fired)
             fn = request(sut_env, op, False)
             cancelled = False
+            # a miss for certain: not cached now and nobody else can cache it before we look
+            missed = cache_key_of(op) not in keys0 and (op["mode"] == "sync" or in_flight_async[0] == 0)
+            if missed:
+                bump(st, "req.certain_miss")
             if op["mode"] == "sync":
                 if in_flight_async[0]:
                     flags["sync_during_async"] += 1
@@ -759,7 +802,7 @@ class C23:
                 if prev is not None and prev != op["ns"]:
                     flags["ns_switch"] += 1
                 last_ns_for_name[op["name"]] = op["ns"]
-            judge(op, inv, ret, tuple(got) if got[0] != "ok" else ("ok", got[1]), loads0, cancelled)
+            judge(op, inv, ret, tuple(got) if got[0] != "ok" else ("ok", got[1]), loads0, cancelled, missed)
 
         async def root():
             tasks = [loop.create_task(client(c), name="c%d" % c["id"]) for c in sc["clients"] if c["ops"]]
